@@ -1096,22 +1096,20 @@ impl Parser {
                             meta_end,
                         )) = self.tokens.peek()
                         {
-                            if type_suffix == *type_suffix_end {
-                                let range_end = *range_end;
+                            let range_end = if is_inclusive {
+                                Some(*range_end)
+                            } else {
+                                range_end.checked_sub(1)
+                            };
+                            if let (true, Some(range_end)) =
+                                (type_suffix == *type_suffix_end, range_end)
+                            {
                                 let meta_end = *meta_end;
                                 self.advance();
 
                                 let meta = join_meta(meta, meta_end);
                                 Ok(Pattern::untyped(
-                                    PatternEnum::UnsignedInclusiveRange(
-                                        n,
-                                        if is_inclusive {
-                                            range_end
-                                        } else {
-                                            range_end - 1
-                                        },
-                                        type_suffix,
-                                    ),
+                                    PatternEnum::UnsignedInclusiveRange(n, range_end, type_suffix),
                                     meta,
                                 ))
                             } else {
@@ -1142,22 +1140,20 @@ impl Parser {
                             meta_end,
                         )) = self.tokens.peek()
                         {
-                            if type_suffix == *type_suffix_end {
-                                let range_end = *range_end;
+                            let range_end = if is_inclusive {
+                                Some(*range_end)
+                            } else {
+                                range_end.checked_sub(1)
+                            };
+                            if let (true, Some(range_end)) =
+                                (type_suffix == *type_suffix_end, range_end)
+                            {
                                 let meta_end = *meta_end;
                                 self.advance();
 
                                 let meta = join_meta(meta, meta_end);
                                 Ok(Pattern::untyped(
-                                    PatternEnum::SignedInclusiveRange(
-                                        n,
-                                        if is_inclusive {
-                                            range_end
-                                        } else {
-                                            range_end - 1
-                                        },
-                                        type_suffix,
-                                    ),
+                                    PatternEnum::SignedInclusiveRange(n, range_end, type_suffix),
                                     meta,
                                 ))
                             } else {
